@@ -1219,3 +1219,62 @@ func openWindowsStored(fn *ssa.Function) []*ssa.Slice {
 	})
 	return out
 }
+
+// fieldCopiesComplete (COPY-BY-FIELDS-COMPLETE): a struct value of a named module type that is built by copying two or
+// more fields from ANOTHER value of the same type (x.f = y.f with the same field on both sides) is a derived copy, and a
+// derived copy sets every field of the type: a field the rebuilt value forgets silently falls back to its zero value.
+// Returns the number of derived copies found.
+func fieldCopiesComplete(w *World, r *Report, rule string, why string, typeOK func(*types.Named) bool, prefixes ...string) int {
+	n := 0
+	for _, fn := range w.RepoFuncs(prefixes...) {
+		type acc struct {
+			named  *types.Named
+			set    map[string]bool
+			copied map[ssa.Value]int // source value -> number of same-named fields copied from it
+			pos    token.Pos
+		}
+		byBase := map[ssa.Value]*acc{}
+		var order []ssa.Value
+		for _, fw := range fieldWrites(fn) {
+			al, ok := fw.base.(*ssa.Alloc)
+			if !ok || fw.owner == nil || fw.kind != "store" {
+				continue
+			}
+			if _, isStruct := deref(al.Type()).Underlying().(*types.Struct); !isStruct || namedOf(al.Type()) != fw.owner || !typeOK(fw.owner) {
+				continue
+			}
+			a := byBase[al]
+			if a == nil {
+				a = &acc{named: fw.owner, set: map[string]bool{}, copied: map[ssa.Value]int{}, pos: al.Pos()}
+				byBase[al] = a
+				order = append(order, al)
+			}
+			a.set[fw.field.Name()] = true
+			if f, src := loadedField(fw.val); f != nil && sameField(f, fw.field) && src != ssa.Value(al) {
+				a.copied[src]++
+			}
+		}
+		for _, b := range order {
+			a := byBase[b]
+			best := 0
+			for _, k := range a.copied {
+				if k > best {
+					best = k
+				}
+			}
+			if best < 2 {
+				continue
+			}
+			st := a.named.Underlying().(*types.Struct)
+			var missing []string
+			for i := 0; i < st.NumFields(); i++ {
+				if !a.set[st.Field(i).Name()] {
+					missing = append(missing, st.Field(i).Name())
+				}
+			}
+			n++
+			r.Check(len(missing) == 0, rule, fmt.Sprintf("%s: %s rebuilt field by field (%d copied)", w.fname(fn), a.named.Obj().Name(), best), a.pos, "every field of the type is set", "the copy forgets "+strings.Join(missing, ", ")+": "+why)
+		}
+	}
+	return n
+}
